@@ -80,4 +80,13 @@ PROPS["C06"] = {
     "level_note": "Trusted: Coq kernel/vm_compute; Model/Smooth.v validated on explored cases; textbook recursion Spec/C06.v; exact arithmetic.",
 }
 
+PROPS["C10"] = {
+    "corr": "Model.Sources.{pull,peek,cached} vs the Source impls of signalo_sources (chain, take, skip, cycle, repeat, constant, increment, from_iter/into_iter, peek, cache, pad::constant, pad::edge)",
+    "rule": "expressions built at run time from the real adapter types over a boxed source (harness/src/dynsrc.rs): 8 leaves (empty, 1..3 elements, constant, repeat 2/0, increment), every unary adapter variant (counts 0,1,2,4; pads 0,1,2) over every leaf and every chain of two leaves (depth 1), every unary variant over every depth-1 expression (half of them in the quick tier, all edge pads) and sampled chains (depth 2), seeded random trees of depth 3..5; 16..28 pulls each (so at least 3 pulls past every finite end); for peek and cache roots every interleaving of the two root operations up to length 6; non-trivial = nested expression whose stream ends within the observed pulls (Check/C10.v)",
+    "trusted": ["boxing glue harness/src/dynsrc.rs (DynSrc delegates Source/Clone to the boxed real adapter)", "leaves are fused (FromIter over vec::IntoIter)", "samples are i64 / Z; Increment does not overflow on the explored values"],
+    "assumptions": ["leaf sources are fused"],
+    "level_text": "Theorems for every expression of any nesting depth and any number of pulls: k pulls from the initial state return the first k items of the iterator analogue (a list-function semantics sem) followed by Nones; the end is sticky; peek/pull and cached/pull interleavings on a peek/cache root observe exactly the look-ahead / last-result semantics; the fuel used by the model's pull always suffices; plus the one-step law for every well-formed run-time state via a closed-form denotation. Proved in Coq (coinduction-style fusedness invariant, per-adapter lemmas, structural induction on expressions).",
+    "level_note": "Trusted: Coq kernel/vm_compute; hand-written Model/Sources.v validated on explored cases; spec sem (Spec/C10.v) read as 'iterator analogue'; boxing glue.",
+}
+
 NOT_YET = {}
